@@ -123,10 +123,10 @@ Proof.
   intros NP AC Cap Fit. unfold send_message, bind at 1, get at 1.
   rewrite Cap, N.eqb_refl. cbn [negb].
   replace (max_packet_size (cfg (st s)) <? len (enc_hdr _)) with false by lia.
-  unfold bind at 1, num_sends at 1. rewrite NP. cbn [andb].
-  unfold bind at 1, ret at 1. unfold bind at 1, get at 1. cbn [st].
+  unfold bind at 1, num_sends at 1. unfold send_body. rewrite NP. cbn [andb].
+  unfold bind at 1, ret at 1. unfold send_customs. unfold bind at 1. unfold bind at 1, get at 1. cbn [st].
   rewrite AC. rewrite andb_false_r. cbn [andb].
-  unfold bind, ret, emit. cbn. rewrite !app_nil_r. reflexivity.
+  unfold ret, emit. cbn. rewrite !app_nil_r. reflexivity.
 Qed.
 
 Lemma bind_ok {A B} (m : M A) (g : A -> M B) (s s' : @rs Id Addr HO) (a : A) :
